@@ -23,7 +23,7 @@ RULE = (
     "non-trivial = more than one entry or non-zero data; distinct = case key (index-coded entries are unique per shape)"
 )
 BOUNDS = {
-    "quick": "all shapes (I,J,K) in {1..4}^3 x modes 0..2 x 3 layouts; images H,W in {1..4} x 5 value classes x 3 real parts; psnr/relative_error on 6 pair kinds; add_awgn_snr: 4 snr x 5 shapes with stub generator",
+    "quick": "all shapes (I,J,K) in {1..4}^3 x modes 0..2 x 3 layouts; images H,W in {1..4} x 5 value classes x 3 real parts; psnr/relative_error on 6 pair kinds; add_awgn_snr: 4 snr x 8 shapes with a stub generator, and for images with at most 12 components the exact expectation over all 2^N sign streams",
     "thorough": "shapes up to 6^3, images up to 6x6",
 }
 WALL_BUDGET = {"quick": 120, "thorough": 600}
@@ -70,6 +70,23 @@ class StubRng:
         return loc + scale * t.reshape(size)
 
 
+class SignRng:
+    """normal(loc, scale, size) = loc + scale * (next entries of a +-1 stream given by the bits of an integer)."""
+
+    def __init__(self, bits):
+        self.bits, self.pos = bits, 0
+
+    def normal(self, loc=0.0, scale=1.0, size=None):
+        n = int(np.prod(size)) if size is not None else 1
+        t = np.array([1.0 if (self.bits >> (self.pos + k)) & 1 else -1.0 for k in range(n)])
+        self.pos += n
+        out = loc + scale * t
+        return out.reshape(size) if size is not None else float(out[0])
+
+    def standard_normal(self, size=None):
+        return self.normal(0.0, 1.0, size)
+
+
 def cases(tier, seed):
     S = 4 if tier == "quick" else 6
     out = []
@@ -81,7 +98,7 @@ def cases(tier, seed):
         out.append({"key": f"img/{H}x{W}", "grp": "img", "H": H, "W": W})
     out.append({"key": "metrics", "grp": "metrics"})
     for snr in (0, 10, 20, 40):
-        for shp in ((1, 1), (2, 3), (4, 4), (3, 5), (1, 7)):
+        for shp in ((1, 1), (1, 2), (2, 1), (1, 3), (2, 3), (4, 4), (3, 5), (1, 7)):
             out.append({"key": f"noise/snr={snr}/{shp[0]}x{shp[1]}", "grp": "noise", "snr": snr, "H": shp[0], "W": shp[1]})
     return out
 
@@ -272,6 +289,28 @@ def run_case(case, seed):
                     fails.append(fail("noise_sigma", f"sigma={sig!r} vs {exp_sig!r}", **tags))
         if Q.tobytes() != before:
             fails.append(fail("input_unchanged", "add_awgn_snr modified its argument", **tags))
+        # expectation, exactly: the generator is replaced by the uniform distribution on all sign streams {+1,-1}^N
+        # (iid, mean 0, variance 1); the mean of ||Y - Q||^2 over ALL 2^N streams must be ||Q||^2 / 10^(snr/10)
+        if Q.size <= 12:
+            N = Q.size
+            tot = 0.0
+            bad = None
+            for bits in range(1 << N):
+                srng = SignRng(bits)
+                ok, Y = call(q.add_awgn_snr, Q, float(snr), srng)
+                evals += 1
+                if not ok or srng.pos != N:
+                    bad = f"stream {bits:b}: ok={ok} draws used={srng.pos}"
+                    break
+                tot += float(np.sum((Y - Q) ** 2))
+            if bad:
+                fails.append(fail("noise_generator_use", bad, **tags))
+            else:
+                mean_pow = tot / (1 << N)
+                want = float(np.sum(Q ** 2)) / 10 ** (snr / 10)
+                if abs(mean_pow - want) > 1e-9 * want:
+                    fails.append(fail("snr_in_expectation", f"E||noise||^2 over all 2^{N} sign streams = {mean_pow!r}, requested power {want!r} "
+                                      f"({10 * math.log10(want / mean_pow):+.3f} dB off)", **tags))
         Z = np.zeros((H, W, 4))
         ok, Yz = call(q.add_awgn_snr, Z, float(snr), StubRng())
         if not ok or not np.array_equal(Yz, Z):
